@@ -237,9 +237,16 @@ impl C13Check {
         for permissive in [false, true] {
             let mut knobs = Knobs::default();
             knobs.permissive = permissive;
-            // Keep the VM small enough for exhaustive k.
-            knobs.max_forks = 6;
-            knobs.max_iterations = 3;
+            // Keep the VM small enough for exhaustive k; beyond that the
+            // limits vary per program (a pure function of the case seed).
+            let mut kr = Rng::new(derive(seed, 99));
+            knobs.max_forks = 1 + kr.usize_below(8);
+            knobs.max_iterations = 1 + kr.usize_below(4);
+            knobs.mem_op_limit = *kr.pick(&[32usize, 33, 394, 394, 4096]);
+            knobs.value_size_limit = *kr.pick(&[250usize, 250, 10, 3]);
+            if kr.chance(1, 5) {
+                knobs.gas_limit = kr.log_range(100, 5_000) as usize;
+            }
             // Probe size at p = 1 first.
             let probe = sim::run(&scenario(code, &knobs, &sched, WdPlan::never(1), Api::OneCall), &RunOpts::default());
             res.runs += 1;
@@ -317,7 +324,7 @@ impl Check for C13Check {
                 "the supervisor/analysis interaction is one Relaxed AtomicBool load per poll, so the set of distinguishable interleavings is exactly 'first poll index that reads true', which is what is enumerated",
                 "loop iterations are counted by tick markers placed next to (not inside) the poll conditions (cfg hook H5)",
                 "bounds accepted: at most poll_every further polls after the first stop; floor(work/p) <= polls <= ceil(work/p) + skipped iterations per loop instance",
-                "VM limits reduced (6 forks per target, 3 iterations per opcode) to keep every-k enumeration tractable",
+                "VM limits kept small (1..8 forks per target, 1..4 iterations per opcode) to keep every-k enumeration tractable; copy-size limit, value-size limit and (1 in 5) a small gas limit vary per program",
             ],
             components: super::components(),
         }
